@@ -37,6 +37,7 @@ func main() {
 		"expiry is produced by the harness (stored expiry moved 48 h into the past; expired JWTs signed by the harness with the provider's key), stored expiries are hours away from now: no verdict depends on the clock",
 		"ID tokens cannot be revoked: an ID token of a terminated session used as token-exchange subject/actor is grey (DESIGN 6a C15); a live token declared under another token type is grey (C15 judges it), a dead one must be refused under any declared type",
 		"a string that decodes to the very same ciphertext / JWS parts as a live token (non-canonical base64 tail bits, CR/LF that Go's decoder skips) is the same token in another spelling: counted, not judged",
+		"token ids are assumed unguessable: vstore's ids are sequential, so a flipped id digit of an opaque token can name another live token of the same subject - such a string is that token's genuine content under the provider's key; counted (forged_grey_class), not judged, and the forged-token worlds mint nothing that could be hit",
 		"refresh and ID tokens presented at userinfo / introspection are counted, not judged (the endpoints are defined for access tokens)",
 		"token exchange is judged one-directionally (a refused live token is counted only); revocation of an already dead token by anybody is counted only",
 	)
